@@ -60,7 +60,16 @@ class C11(Check):
                   'leaving the same maps), and the hooks delivered are exactly the pairs at the prefixes of '
                   'the matched pattern, outermost first, with the matched prefix length (hooks_fire_exactly). Model tied '
                   'to the code by differential runs of whole edit histories (random + exhaustive small scope with state '
-                  'merging). By correspondence only: the 404 payload, rex selectors.')
+                  'merging). Enumeration and key forms (Model/RouterListing.lean): the explicit-stack loop of '
+                  'RadiDict._routes_iter yields exactly the routes of the tree, children first, each once '
+                  '(routes_iter_eq_denote, routes_iter_yield_hooks); after every edit history the enumeration, the '
+                  'routes index and the name index list the same routes (routes_iter_after_history); every key form of '
+                  'RadiRouter.__getitem__ / RouteKey is one of three lookups or is refused with the exception of the '
+                  'code (getitem_forms_agree) and returns the route resolve dispatches on '
+                  '(getitem_returns_resolved_route); _render_route output parses back on the plain-wildcard domain '
+                  '(render_route_roundtrip); params_unpack undoes params_signature; the Ombott wrappers add nothing '
+                  '(ombott_wrappers). By correspondence only: the 404 payload, rex selectors, str/repr and '
+                  'error-message texts, _routes_iter(startswith=...).')
     level_note_extra = ('hooks at or below a removed prefix* are unspecified by the property and excluded; '
                         'the rebuild-from-survivors step is proved (fresh_same_maps: the former hypothesis '
                         'SameSurvivors of history_eq_fresh_built is discharged for every history in the domain)')
@@ -68,7 +77,11 @@ class C11(Check):
             'remove(prefix*) / add_hook simple+partial / remove_hook) over rule universes with shared and split '
             'literal prefixes, wildcard siblings, filter clashes and hook-only prefixes, probed at random points '
             'and at the end: paths through RadiRouter.resolve and Ombott.__call__ (hooks that ran, order, '
-            'argument), every name, the rules used, get_hook, the three indexes; non-trivial = the history '
+            'argument), every name, the rules used, get_hook, the three indexes; in 60% of the histories also '
+            'Ombott.remove_route in its three argument forms and the listing probes: _routes_iter (with '
+            'startswith / yield_hooks), list(app.routes), repr/str of routes and methods, router[key] for every '
+            'key form (name, {rule}, dict forms, RouteKey variants, malformed keys), the RadiDictKeyError and '
+            'RouteMethodError texts, _render_route, params_unpack; non-trivial = the history '
             'removes something that existed and a later probe hits a route')
     assumptions = ['rule text contains no CR (the router\'s wildcard marker) and no repeated wildcard name (as C01)',
                    'a registered rule / hook rule does not end with `*` (the removal API\'s own prefix marker)',
@@ -110,10 +123,14 @@ class C11(Check):
         nontriv = False
         for op, ans in zip(run.ops, run.answers):
             k = op.split('|')[0]
-            self._bump(k + ':' + ans.split(':')[0].split('=')[0])
+            if k in E.EditRunner.LISTING_OPS and k != 'WX':
+                kind = ans.split(':')[0] if ans.split(':')[0] in ('err', 'route') else (ans if ans in ('none', 'noroute', '~') else 'text')
+                self._bump(k + ':' + kind)
+            else:
+                self._bump(k + ':' + ans.split(':')[0].split('=')[0])
             if ans.startswith('err:'):
                 self._bump(k + '-' + ans)
-            if k in ('X', 'XN', 'XH') and ans == 'ok':
+            if k in ('X', 'XN', 'XH', 'WX') and ans == 'ok':
                 removed = True
             if removed and (ans.startswith('hit:') or ans.startswith('ran:')):
                 nontriv = True
@@ -121,6 +138,10 @@ class C11(Check):
                 self._bump('V:hooks-fired')
             if k == 'V' and ans.startswith('status:'):
                 self._bump('V:other-status')
+            if k == 'LI':
+                self._bump('LI:entries', 0 if ans == '~' else ans.count(';') + 1)
+            if k == 'LK':
+                self._bump('LK-form:' + op.split('|')[1][:1])
         self._bump('ops', len(run.ops))
         self._bump('histories')
         sample = dict(ops=ops, nontrivial=nontriv)
@@ -153,7 +174,9 @@ class C11(Check):
     SMALL_PROBES = ([['FS', ['a', 'ab', 'abc', 'a/q', 'ab/q', 'a/b/d', 'a/b', 'a/q/d'], ['GET', 'ANY']]] +
                     [['V', 'GET', p] for p in ['/a', '/ab', '/abc', '/a/q', '/ab/q', '/abx', '/a/', '/a/b/d', '/a/b']]
                     + [['P', 'ab', ['POST', 'ANY']], ['P', 'a/b/d', ['GET']], ['L'], ['I', 'n1'], ['I', 'n2'], ['IR', '/a'],
-                       ['IR', '/ab'], ['IR', '/a/<z>'], ['K', '/a'], ['K', '/ab'], ['K', '/a/b']])
+                       ['IR', '/ab'], ['IR', '/a/<z>'], ['K', '/a'], ['K', '/ab'], ['K', '/a/b']]
+                    + [['LI', '', True], ['LI', 'a', False], ['LR'], ['LK', ['s', ['/ab']]],
+                       ['LK', ['d', [['pattern', 'a/\r']]]], ['LK', ['k', None, 'abc']]])
 
     def _dump(self, run, ops):
         """canonical state of the real router; handler / hook identities are named by the op
@@ -231,6 +254,7 @@ class C11(Check):
             elif exp is not None and (rt.pattern != exp or rt is not r.routes.get(exp)):
                 bad.append(('name-wrong-route', f'router[{name!r}] is {rt.pattern!r} (stale object: '
                                                 f'{rt is not r.routes.get(exp)}), expected {exp!r}'))
+        bad += self._check_listing(run, spec, paths, rules)
         try:
             fresh = spec.rebuild()
         except core.Hang:
@@ -301,6 +325,125 @@ class C11(Check):
                                                      f'{sb[3]!r}, expected {exp!r}'))
         return bad
 
+    def _check_listing(self, run, spec, paths, rules=()):
+        """enumeration and key forms against the dict spec (nothing of the model is used): the
+        enumerated patterns are the survivors, each exactly once, with the survivor's own Route
+        object; `startswith` selects by pattern prefix; `yield_hooks` adds exactly the hook-only
+        survivors; every key form returns the Route object `resolve` dispatches on; malformed keys
+        are refused with TypeError as the docstring of `__getitem__` says"""
+        from ombott.router.radirouter import RouteKey
+        from ombott.router.radidict import DATA, HOOKS
+        bad = []
+        r = run.router
+        rd = r.radidict
+        # a rotating third of the prefixes / paths / rules per call (the oracle runs after every edit)
+        self._lc = getattr(self, '_lc', 0) + 1
+        rot = self._lc % 3
+        paths = list(paths)[rot::3]
+        rules = list(rules)[rot::3]
+
+        def listed(**kw):
+            return [(run.observe_path(p), p) for p in core.with_timeout(lambda: list(rd._routes_iter(**kw)))]
+        full = listed()
+        pats = [o[0] for o, _ in full]
+        if sorted(pats) != sorted(spec.routes):
+            bad.append(('listing', f'_routes_iter() lists {pats!r}, survivors {sorted(spec.routes)!r}'))
+        for (pat, flt, keys, data, hooks), _ in full:
+            rt = r.routes.get(pat)
+            if data is None or data is not rt:
+                bad.append(('listing-object', f'_routes_iter() yields {pat!r} with data '
+                                              f'{getattr(data, "rule", data)!r}, the routes index holds '
+                                              f'{getattr(rt, "rule", rt)!r}'))
+            elif [f for f in flt] != list(rt.filters) or keys != list(rt.params):
+                bad.append(('listing-params', f'_routes_iter() yields {pat!r} with params {keys!r} / filters that '
+                                              f'differ from the route\'s {rt.params!r}'))
+        both = listed(yield_hooks=True)
+        hook_only = [o[0] for o, _ in both if o[3] is None]
+        with_data = [o[0] for o, _ in both if o[3] is not None]
+        if with_data != pats:
+            bad.append(('listing-yield-hooks', f'routes listed with yield_hooks {with_data!r}, without {pats!r}'))
+        exp_hooks = sorted(q for q in spec.hooks if q not in spec.routes)
+        got_hooks = sorted(q for q in hook_only if q not in spec.tainted)
+        if got_hooks != exp_hooks:
+            bad.append(('listing-hooks', f'hook-only nodes listed {got_hooks!r}, surviving hook-only patterns {exp_hooks!r}'))
+        seen = set()
+        cands = []
+        for pat in pats[:4] + ['a', 'zz']:
+            for cut in sorted({0, len(pat) // 2, len(pat)}):
+                cands += [pat[:cut], pat[:cut] + 'q', pat[:max(cut - 1, 0)] + 'q' + pat[cut:cut + 1]]
+        for sw in cands[rot::3]:
+            if True:
+                if not sw or sw in seen:
+                    continue
+                seen.add(sw)
+                sub = [o[0] for o, _ in listed(startswith=sw)]
+                exp = [q for q in pats if q.startswith(sw)]
+                if sub != exp:
+                    bad.append(('listing-startswith', f'_routes_iter(startswith={sw!r}) lists {sub!r}, expected {exp!r}'))
+        # key forms: the Route object resolve() dispatches on
+        for path in paths:
+            rt = core.with_timeout(lambda: r.resolve(path))
+            if rt is None:
+                continue
+            if rt is not r.routes.get(rt.pattern):
+                bad.append(('resolve-object', f'resolve({path!r}) returns a route that is not routes[{rt.pattern!r}]'))
+                continue
+            for what, mk in (('{rule}', lambda: {rt.rule}), ("{'rule': rule}", lambda: {'rule': rt.rule}),
+                             ('RouteKey(rule)', lambda: RouteKey(rt.rule)),
+                             ("{'pattern': pattern}", lambda: {'pattern': rt.pattern}),
+                             ('RouteKey(pattern=pattern)', lambda: RouteKey(pattern=rt.pattern))):
+                try:
+                    got = r[mk()]
+                except Exception as e:
+                    got = type(e).__name__
+                if got is not rt:
+                    bad.append(('getitem-object', f'router[{what}] for the route resolve({path!r}) dispatches on '
+                                                  f'({rt.rule!r}) gives {getattr(got, "rule", got)!r}'))
+        # lookups by rule: the survivor registered under exactly this pattern and filters, else None
+        for rule in rules:
+            try:
+                pat, flt = spec.parse(rule)
+            except E.Outside:
+                continue
+            except Exception:
+                continue
+            if pat.startswith('/') or (spec.tainted and pat not in spec.routes):
+                continue
+            same = pat in spec.routes and len(flt) == len(spec.filters[pat]) and all(
+                a is b for a, b in zip(flt, spec.filters[pat]))
+            exp = r.routes.get(pat) if same else None
+            for what, mk in (('{rule}', lambda: {rule}), ('RouteKey(rule)', lambda: RouteKey(rule))):
+                try:
+                    got = r[mk()]
+                except Exception as e:
+                    got = type(e).__name__
+                if got is not exp:
+                    bad.append(('getitem-by-rule', f'router[{what}] with rule {rule!r} gives '
+                                                   f'{getattr(got, "rule", got)!r}, the survivors say '
+                                                   f'{getattr(exp, "rule", exp)!r}'))
+        for name, pat in spec.names.items():
+            try:
+                got = r[{'pattern': pat}]
+            except Exception as e:
+                got = type(e).__name__
+            if r[name] is not got:
+                bad.append(('getitem-name-vs-pattern', f'router[{name!r}] and router[{{"pattern": {pat!r}}}] differ'))
+        some = sorted(spec.routes)[:2] + ['zz', 'zy']
+        for what, mk in (('a two-item set', lambda: {'/' + some[0], '/' + some[1]}),
+                         ('a two-item dict', lambda: {'rule': '/' + some[0], 'pattern': some[0]}),
+                         ('RouteKey(rule, pattern=…)', lambda: RouteKey('/' + some[0], pattern=some[0])),
+                         ('a tuple', lambda: ('/' + some[0],)), ('a list', lambda: ['/' + some[0]]),
+                         ('a frozenset', lambda: frozenset(['/' + some[0]]))):
+            try:
+                got = r[mk()]
+                bad.append(('getitem-malformed-accepted', f'router[{what}] is answered ({getattr(got, "rule", got)!r}) '
+                                                          f'instead of raising TypeError'))
+            except TypeError:
+                pass
+            except Exception as e:
+                bad.append(('getitem-malformed-error', f'router[{what}] raises {type(e).__name__}, not TypeError'))
+        return bad
+
     def oracle(self, ops, every=True):
         """plays the edits on the real code next to the dict spec; after every edit (or at the
         probe ops) compares with the rebuilt router.  Returns [(key, what)]"""
@@ -346,6 +489,16 @@ class C11(Check):
                     spec.add_hook(op[1], op[2], idx, out)
                 elif k == 'XH':
                     spec.remove_hook(op[1], out)
+                elif k == 'WX':
+                    if op[1] is not None:
+                        spec.remove_rule(op[1], out)
+                    elif op[2] is not None:
+                        pred = spec.remove_name(op[2], out)
+                        if pred != out:
+                            bad.append(('remove-name-outcome', f'{op!r} answered {out}, survivors say {pred}'))
+                            return bad
+                    elif op[3] is not None:
+                        spec.remove_pattern(op[3], out)
                 if every:
                     bad += self._check_point(run, spec, paths, rules, None)
                     if bad:
